@@ -13,6 +13,11 @@ Proof. exact visitors_sound_lemma. Qed.
 Theorem roots_cover : forall s, In s marked_root_sets.
 Proof. exact roots_cover_lemma. Qed.
 
+(* the frames root set includes the exception handler installed on a live frame (generated fact; without it a box
+   reachable only through a live call-with-exception-handler handler was reclaimed: DESIGN F49) *)
+Theorem frame_handlers_are_roots : frame_handlers_rooted = true.
+Proof. reflexivity. Qed.
+
 Theorem recycler_restores : recycler_restores_marks = true.
 Proof. exact recycler_restores_lemma. Qed.
 
